@@ -126,9 +126,11 @@ theorem client_setClient (g : G) (c c' : Client) (hid : c'.id = c.id) (h : g.cli
 /-- **The drift guard of `deal`.** In ANY state (in particular in every state reachable from a lagging initial
 state): an update conditioned on revision `m` that is dealt a revision `≤ m` finishes in its first step with
 `ErrRevisionDriftBack`; store and history are untouched. (When `m` is the key's current revision the engine's CAS
-would have let it through: `cas_alone_admits_stale_write`.) -/
+would have let it through: `cas_alone_admits_stale_write`.) `hopen`: `Deal` hands out a revision at all (since /repo
+624b477 it refuses while the sequencer's window is full: `C04.window_full_is_refused_not_panicked`). -/
 theorem lagging_update_refused (g : G) {c : Client} (hc : g.client c.id = some c) {key val : Bytes} {m : Nat}
-    (hpc : c.pc = .start) (hk : c.kind = .update key val m) (hlag : g.dealt + 1 ≤ m) (f : Fault) :
+    (hpc : c.pc = .start) (hk : c.kind = .update key val m) (hopen : g.windowFull = false) (hlag : g.dealt + 1 ≤ m)
+    (f : Fault) :
     (act g (.step c.id f)).store = g.store ∧ (act g (.step c.id f)).hist = g.hist ∧
     (act g (.step c.id f)).wlog = g.wlog ∧ (act g (.step c.id f)).client c.id = none ∧
     (act g (.step c.id f)).done = g.done ++
@@ -139,7 +141,9 @@ theorem lagging_update_refused (g : G) {c : Client} (hc : g.client c.id = some c
   simp only at hpc hk
   subst hpc hk
   have e0 : (m == 0) = false := by simp; omega
-  simp only [stepClient, e0, hlag, if_true, Bool.false_eq_true, if_false]
+  have hopen' : windowFullAt g.cfg g.dealt g.committed = false := hopen
+  simp only [stepClient, stepClientCore, dealSite, G.windowFull, hopen', Bool.and_false, e0, hlag, if_true,
+    Bool.false_eq_true, if_false]
   refine ⟨by simp, by simp, by simp, ?_, by simp [G.finish]⟩
   simp only [G.client, G.finish, List.find?_eq_none, List.mem_filter]
   intro x hx
@@ -153,7 +157,7 @@ theorem lagging_delete_refused (g : G) (hwf : KeyWF g.store) (hal : StoreAlpha g
     (hc : g.client c.id = some c) {key : Bytes} (hka : Alphabet key) (hpc : c.pc = .start)
     (hk : c.kind = .delete key 0) {iv v : Bytes} {m : Nat} {t : Bool}
     (hidx : g.store.get (idxKey key) = some iv) (hp : parseRevision iv = some (m, t))
-    (hv : g.store.get (encode key m) = some v) (hlive : isTomb v = false)
+    (hv : g.store.get (encode key m) = some v) (hlive : isTomb v = false) (hopen : g.windowFull = false)
     (hlag : g.dealt + 1 ≤ m) (f1 f2 : Fault) :
     (run g [.step c.id f1, .step c.id f2]).store = g.store ∧
     (run g [.step c.id f1, .step c.id f2]).hist = g.hist ∧
@@ -181,12 +185,14 @@ theorem lagging_delete_refused (g : G) (hwf : KeyWF g.store) (hal : StoreAlpha g
   subst hpc hk
   have h1 : stepClient g ⟨id, .delete key 0, .start, bd⟩ f1 =
       g.setClient ⟨id, .delete key 0, .deleteDeal (some (v, m)), bd⟩ := by
-    simp only [stepClient, hfound]
+    simp only [stepClient, stepClientCore, dealSite, Bool.false_and, Bool.false_eq_true, if_false, hfound]
   rw [h1, act_step_of _ id f2 _ (client_setClient g ⟨id, .delete key 0, .start, bd⟩
     ⟨id, .delete key 0, .deleteDeal (some (v, m)), bd⟩ rfl hc)]
   have hle : g.dealt + 1 ≤ m := hlag
-  simp only [stepClient, G.setClient_dealt, hle, Nat.lt_irrefl, decide_false,
-    Bool.false_and, Bool.false_eq_true, if_false, if_true, gt_iff_lt]
+  have hopen' : windowFullAt g.cfg g.dealt g.committed = false := hopen
+  have hopen2 : (g.setClient ⟨id, .delete key 0, .deleteDeal (some (v, m)), bd⟩).windowFull = false := hopen'
+  simp only [stepClient, stepClientCore, dealSite, hopen2, Bool.and_false, G.setClient_dealt, hle, Nat.lt_irrefl,
+    decide_false, Bool.false_and, Bool.false_eq_true, if_false, if_true, gt_iff_lt]
   refine ⟨by simp, by simp, by simp, by simp [G.finish]⟩
 
 /-- the same for the states of a run over the alphabet from a lagging initial state -/
@@ -196,7 +202,7 @@ theorem lagging_delete_refused_reachable {g0 : G} (h0 : LagInit g0) (hwf : KeyWF
     (hk : c.kind = .delete key 0) {iv v : Bytes} {m : Nat} {t : Bool}
     (hidx : (run g0 s).store.get (idxKey key) = some iv) (hp : parseRevision iv = some (m, t))
     (hv : (run g0 s).store.get (encode key m) = some v) (hlive : isTomb v = false)
-    (hlag : (run g0 s).dealt + 1 ≤ m) (f1 f2 : Fault) :
+    (hopen : (run g0 s).windowFull = false) (hlag : (run g0 s).dealt + 1 ≤ m) (f1 f2 : Fault) :
     (run (run g0 s) [.step c.id f1, .step c.id f2]).store = (run g0 s).store ∧
     (run (run g0 s) [.step c.id f1, .step c.id f2]).hist = (run g0 s).hist ∧
     (run (run g0 s) [.step c.id f1, .step c.id f2]).wlog = (run g0 s).wlog ∧
@@ -204,7 +210,7 @@ theorem lagging_delete_refused_reachable {g0 : G} (h0 : LagInit g0) (hwf : KeyWF
       [{ id := c.id, kind := c.kind, res := .error .other, rev := (run g0 s).dealt + 1, beginDealt := c.beginDealt,
          endDealt := (run g0 s).dealt + 1 }] :=
   lagging_delete_refused (run g0 s) (lagging_allocator_store_wf h0 hwf ⟨s, rfl⟩ hb)
-    (lagging_allocator_store_alpha h0 hal s hs) hc hka hpc hk hidx hp hv hlive hlag f1 f2
+    (lagging_allocator_store_alpha h0 hal s hs) hc hka hpc hk hidx hp hv hlive hopen hlag f1 f2
 
 /-! ### each guard is needed -/
 
@@ -391,13 +397,18 @@ def creA : List Action := [.begin 1 (.create ka [9]), .step 1 .none, .step 1 .no
 
 /-- **Without the creator's `prevRev < rev` guard.** A create of the deleted key is dealt 4 < 5; without the guard it
 overwrites the deletion record: `ok 4`, but the newest version is still the tombstone at 5 — the key it just created
-reads as not found. With the guard the create fails its condition and changes nothing. -/
+reads as not found. With the guard the create is refused and changes nothing: with an ERROR since /repo 42e5238 (the
+key is absent, the condition "absent" did not fail; before that fix - `creatorTombAboveIsCf` - the answer was a
+failed condition: the old observation (i)). -/
 theorem creator_guard_needed :
     LagInit exLagDel ∧
     (let g := runWith stepClientNoCreatorGuard exLagDel creA
      g.done.map (·.res) = [.ok 4] ∧ g.hist = [⟨ka, 4, some [9]⟩] ∧ topOf g.store ka = some (4, false) ∧
      bget g.cfg g.store ka 0 = .notFound 5) ∧
     (let g := run exLagDel creA
+     g.done.map (·.res) = [.error .other] ∧ g.hist = [] ∧ g.store = exLagDel.store ∧
+     g.slots.map (fun w => (w.rev, w.valid, w.uncertain)) = [(4, false, false)]) ∧
+    (let g := run { exLagDel with cfg := { creatorTombAboveIsCf := true } } creA
      g.done.map (·.res) = [.condFailed 4 none] ∧ g.hist = [] ∧ g.store = exLagDel.store) := by
   decide
 
